@@ -877,3 +877,46 @@ def net_rstdisc_checks(tier, binaries, log, variants, prop):
                 res.append((False, "real socket (%s): an exception escaped into the event loop" % h, cmdline, {}))
     res.append((True, "", "", {"real_socket_reset_then_disconnect_runs": n}))
     return res
+
+
+def net_lateafter_checks(tier, binaries, log, variants, prop):
+    """the server ends a connection after a `Connection: close` request (TLS: close_notify); the peer then sends a further
+    request on it before closing: a request that arrives after the library has ended the connection must not reach the
+    application, and the connection is signalled as disconnected exactly once"""
+    import re
+    import subprocess
+    import vlib
+    res = []
+    n = 0
+    for h in variants:
+        try:
+            binary = binaries.get(h) or vlib.build_harness(h, log)
+        except vlib.BuildError as e:
+            res.append((False, "net_driver (%s) does not build against the current tree: %s" % (h, str(e)[-300:]), "build " + h, {}))
+            continue
+        for n_conn in ((3,) if tier == "quick" else (1, 3, 10)):
+            args = ["lateafter", "n=%d" % n_conn]
+            cmdline = "%s %s" % (h, " ".join(args))
+            try:
+                r = subprocess.run([binary] + args, capture_output=True, text=True, timeout=180)
+            except subprocess.TimeoutExpired:
+                res.append((False, "net_driver %s hung" % " ".join(args), cmdline, {}))
+                continue
+            m = re.search(r"^RESULT (.*)$", r.stdout, re.M)
+            n += 1
+            if not m:
+                res.append((False, "abort: net_driver failed (exit status %d): %s" % (r.returncode, (r.stdout + r.stderr)[-300:]), cmdline, {}))
+                continue
+            kv = dict(x.split("=", 1) for x in m.group(1).split() if "=" in x)
+            if kv.get("errors") != "0" or kv.get("handled") != str(n_conn) or kv.get("ended") != str(n_conn):
+                continue
+            if kv.get("late_handled") != "0":
+                res.append((False, "real socket (%s): %s requests sent AFTER the server had ended their connection (response to a "
+                            "`Connection: close` request written, close_notify sent) were passed to the application" % (
+                                h, kv.get("late_handled")), cmdline, {}))
+            elif kv.get("connected") != kv.get("disconnected"):
+                res.append((False, "real socket (%s): %s connected but %s disconnected events" % (h, kv.get("connected"), kv.get("disconnected")), cmdline, {}))
+            elif kv.get("srv_exceptions") != "0":
+                res.append((False, "real socket (%s): an exception escaped into the event loop" % h, cmdline, {}))
+    res.append((True, "", "", {"real_socket_late_request_runs": n}))
+    return res
